@@ -471,8 +471,8 @@ void do_strto(Toks& in, Out& impl, Out& ref, EtlF etlf, LibF libf)
 }
 
 // detail::strto_integer<T> called directly (not terminated input): error member, end, value.
-// Reference: glibc strtol/strtoul family for the 64-bit types (errno ERANGE = overflow, end == str
-// = no conversion); for int / unsigned the reference leg is left to the spec.
+// Reference: glibc strtoll/strtoull (errno ERANGE = overflow, end == str = no conversion); for the types
+// narrower than 64 bits the 64-bit result is clamped to / the magnitude compared with the limits of the type.
 template <typename T>
 void do_strto_integer(Toks& in, Out& impl, Out& ref)
 {
@@ -489,22 +489,55 @@ void do_strto_integer(Toks& in, Out& impl, Out& ref)
             val(o, r.value);
         });
     }
+    bool has_nul = false;
+    for (auto c : codes) { has_nul = has_nul || c == 0; }
+    if (has_nul || !(base == 0 || (base >= 2 && base <= 36))) { return; }
+    Text t(codes, true);
+    char* e = nullptr;
+    errno   = 0;
     if constexpr (sizeof(T) == 8) {
-        bool has_nul = false;
-        for (auto c : codes) { has_nul = has_nul || c == 0; }
-        if (!has_nul && (base == 0 || (base >= 2 && base <= 36))) {
-            Text t(codes, true);
-            char* e = nullptr;
-            errno   = 0;
-            T v { };
-            if constexpr (std::is_signed_v<T>) {
-                v = static_cast<T>(std::strtoll(t.p, &e, base));
+        T v { };
+        if constexpr (std::is_signed_v<T>) {
+            v = static_cast<T>(std::strtoll(t.p, &e, base));
+        } else {
+            v = static_cast<T>(std::strtoull(t.p, &e, base));
+        }
+        ref.tok(e == t.p ? "invalid" : (errno == ERANGE ? "overflow" : "ok"));
+        ref.num(e - t.p);
+        val(ref, v);
+    } else if constexpr (std::is_signed_v<T>) {
+        // narrower signed types: the 64-bit glibc result clamped to the type (C17 7.22.1.4 read for that type)
+        long long v = std::strtoll(t.p, &e, base);
+        if (e == t.p) {
+            ref.tok("invalid").num(0);
+            val(ref, T{});
+        } else if (errno == ERANGE || v < static_cast<long long>(std::numeric_limits<T>::min())
+                   || v > static_cast<long long>(std::numeric_limits<T>::max())) {
+            ref.tok("overflow").num(e - t.p);
+            val(ref, v < 0 ? std::numeric_limits<T>::min() : std::numeric_limits<T>::max());
+        } else {
+            ref.tok("ok").num(e - t.p);
+            val(ref, static_cast<T>(v));
+        }
+    } else {
+        // narrower unsigned types: magnitude from glibc's strtoull (which negates in 64 bits: undone here),
+        // compared with the type's maximum, negated in the type
+        char const* q = t.p;
+        while (*q == ' ' || (*q >= '\t' && *q <= '\r')) { ++q; }
+        bool neg             = *q == '-';
+        unsigned long long u = std::strtoull(t.p, &e, base);
+        if (e == t.p) {
+            ref.tok("invalid").num(0);
+            val(ref, T{});
+        } else {
+            unsigned long long m = neg ? 0ULL - u : u;
+            if (errno == ERANGE || m > static_cast<unsigned long long>(std::numeric_limits<T>::max())) {
+                ref.tok("overflow").num(e - t.p);
+                val(ref, std::numeric_limits<T>::max());
             } else {
-                v = static_cast<T>(std::strtoull(t.p, &e, base));
+                ref.tok("ok").num(e - t.p);
+                val(ref, static_cast<T>(neg ? static_cast<T>(0) - static_cast<T>(m) : static_cast<T>(m)));
             }
-            ref.tok(e == t.p ? "invalid" : (errno == ERANGE ? "overflow" : "ok"));
-            ref.num(e - t.p);
-            val(ref, v);
         }
     }
 }
